@@ -9,7 +9,7 @@ RULE = ("case = (spacetime member, fd_order, grid mode, N); the fluid state is "
         "left at its default (at rest w.r.t. the slicing); observations: uup4 "
         "vs n^mu (round-off), theta vs -K, thetadown4/sheardown4 vs the "
         "4D extension of -K_ij/-A_ij, shear2 vs A^2, omega2 and omegadown4 vs "
-        "0, accelerationdown4 vs (beta^i d_i ln alpha, d_i ln alpha), "
+        "0, accelerationdown4 vs (beta^i d_i ln alpha, d_i ln alpha) and its raised form, "
         "a_mu n^mu vs 0; non-trivial = distinct (member class, mode, order, "
         "quantity, component class) with a reached verdict")
 ASSUMPTIONS = c04.ASSUMPTIONS
@@ -18,7 +18,7 @@ MIN_NONTRIVIAL = {"quick": 40, "thorough": 120}
 
 ALG = ['uup4']
 KEYS = ['theta', 'thetadown4', 'sheardown4', 'shear2', 'omegadown4', 'omega2',
-        'accelerationdown4', 'acc_dot_n']
+        'accelerationdown4', 'accelerationup4', 'acc_dot_n']
 
 
 def cases(tier, sd):
@@ -60,6 +60,8 @@ def _run_case(spec):
         dlna = ex['dalpha'] / ex['alpha']
         exd['accelerationdown4'] = np.concatenate(
             [np.einsum('i...,i...->...', b, dlna)[None], dlna], axis=0)
+        exd['accelerationup4'] = np.einsum('ab...,b...->a...', ex['gup4'],
+                                           exd['accelerationdown4'])
         exd['_ex'] = ex
         vals.append((exd, code))
         del rel
@@ -67,7 +69,7 @@ def _run_case(spec):
     K = float(np.abs(ex['Kdown3']).max())
     G4 = float(np.abs(ex['st_Gamma_udd4']).max())
     hints = {'omegadown4': K + G4, 'omega2': (K + G4) ** 2,
-             'acc_dot_n': G4, 'accelerationdown4': G4, 'theta': K,
+             'acc_dot_n': G4, 'accelerationdown4': G4, 'accelerationup4': G4, 'theta': K,
              'thetadown4': K, 'sheardown4': K, 'shear2': K * K}
     engine.compare(res, spec, vals, KEYS, algebraic=ALG,
                    tags=[c04.mclass(spec['member']), spec['mode'], spec['order']],
